@@ -31,13 +31,15 @@ func init() {
 			"'finite' is decided by marker rounds through the event stream: the event count must be stable over two consecutive rounds and below n*(subscribers+2)+16",
 		},
 		modes: func(tier string, seed int64) []modeSpec {
-			n := 480
+			n, div := 480, 16
 			if tier == "thorough" {
-				n = 40000
+				// (bursts of up to 2000 dead letters and 1400 spawn/stop pairs make a case cost up to a few seconds
+				// on a loaded machine: many short children instead of few long ones)
+				n, div = 24000, 96
 			}
 			return []modeSpec{
-				{name: "dl", n: n, perChild: n / 16, timeout: 20 * time.Minute},
-				{name: "dl-chaos", n: n / 2, perChild: n / 32, timeout: 20 * time.Minute, env: []string{"VERIF_HOOK=chaos", "VERIF_HOOK_PROB=30", "VERIF_HOOK_MAXUS=50"}},
+				{name: "dl", n: n, perChild: n / div, timeout: 40 * time.Minute},
+				{name: "dl-chaos", n: n / 2, perChild: n / 2 / div, timeout: 40 * time.Minute, env: []string{"VERIF_HOOK=chaos", "VERIF_HOOK_PROB=30", "VERIF_HOOK_MAXUS=50"}},
 			}
 		},
 		run:         c09Run,
